@@ -1612,7 +1612,52 @@ impl<'a> Gen<'a> {
                 kind: FnKind::Function,
             })))
         };
-        match self.rd.below(11) {
+        match self.rd.below(13) {
+            11 | 12 => {
+                // a return waits while the finally block runs: the function's variables (a local and
+                // a parameter, both captured before) are still the ones the closures share - written
+                // directly in the finally block and through a closure called from it, read both ways
+                // there and through the returned closure afterwards
+                self.label("finally_writes_captured_with_return_pending");
+                let f = self.fresh("fw");
+                let (l1, l2) = (self.next_lambda_name(), self.next_lambda_name());
+                let both = || Expr::VecLit(vec![Expr::var("x"), Expr::var("p")]);
+                let get = Expr::Lambda(Rc::new(FnDef { name: RefCell::new(l1), params: vec![], body: Body::Expr(Box::new(both())), kind: FnKind::Lambda }));
+                let bump = Expr::Lambda(Rc::new(FnDef {
+                    name: RefCell::new(l2),
+                    params: vec![],
+                    body: Body::Block(vec![
+                        Stmt::expr(Expr::assign_var("x", Expr::bin(BinOp::Add, Expr::var("x"), Expr::Num(100.0)))),
+                        Stmt::expr(Expr::assign_var("p", Expr::bin(BinOp::Add, Expr::var("p"), Expr::Num(1000.0)))),
+                    ]),
+                    kind: FnKind::Lambda,
+                }));
+                let early = if self.rd.flag() {
+                    ret(Expr::var("get"))
+                } else {
+                    Stmt::new(StmtKind::If(Expr::bin(BinOp::Gt, Expr::var("p"), Expr::Num(0.0)), vec![ret(Expr::var("get"))], None))
+                };
+                let fin = vec![
+                    Stmt::expr(Expr::assign_var("x", Expr::bin(BinOp::Add, Expr::var("x"), Expr::Num(10.0)))),
+                    Stmt::expr(Expr::assign_var("p", Expr::bin(BinOp::Add, Expr::var("p"), Expr::Num(20.0)))),
+                    Stmt::expr(Expr::callv("bump", vec![])),
+                    Stmt::print(both()),
+                    Stmt::print(Expr::callv("get", vec![])),
+                ];
+                let body = vec![
+                    Stmt::var("x", Some(Expr::Num(1.0))),
+                    Stmt::var("get", Some(get)),
+                    Stmt::var("bump", Some(bump)),
+                    Stmt::new(StmtKind::Try(vec![early], None, Some(fin))),
+                    ret(Expr::Nil),
+                ];
+                out.push(fdef(&f, vec!["p".into()], body));
+                self.declare(&f, Kind::Fn(1), false);
+                let k = self.fresh("kept");
+                out.push(Stmt::var(&k, Some(Expr::callv(&f, vec![Expr::Num(5.0)]))));
+                self.declare(&k, Kind::Any, false);
+                out.push(Stmt::print(Expr::call(Expr::var(&k), vec![])));
+            }
             9 | 10 => {
                 // a function's own name inside its body is an ordinary variable: rebinding it changes
                 // what the body sees, and the body may assign to it
